@@ -65,7 +65,15 @@ def run_c05(tier, seed):
                 kind = rng.choice(["mget", "del", "mset", "get", "mget"])
                 nk = 1 if kind == "get" else rng.choice([1, 2, 2, 3])
                 slots = [sl + "~" if k % 4 == 3 and rng.random() < 0.5 else sl for _ in range(nk)]
-                steps.append({"stim": [st(op="send", c=rng.choice(["c1", "c2"]), reqs=[{"k": kind, "slots": slots, "args": [], "dups": [-1] * nk}])], "settle": True, "noIter": False})
+                rq = {"k": kind, "slots": slots, "args": [], "dups": [-1] * nk}
+                if k % 3 == 1 and rng.random() < 0.6:
+                    # long keys: padding behind the token, or in front of the hash tag (a tag that starts after 64 .. 5 000 bytes)
+                    pad = rng.choice(["+150", "-64", "-127", "-128", "-129", "-200", "-1000", "-5000", "+3000"])
+                    name = rng.choice(["GET", "SET", "HGETALL", "EVAL", "GETSET"])
+                    args = {"GET": ["GET", "@0" + pad], "SET": ["SET", "@0" + pad, "v"], "HGETALL": ["HGETALL", "@0" + pad],
+                            "EVAL": ["EVAL", "return 1", "1", "@0" + pad], "GETSET": ["GETSET", "@0" + pad, "v"]}[name]
+                    rq = {"k": "cmd", "slots": [sl], "args": args, "dups": [-1]}
+                steps.append({"stim": [st(op="send", c=rng.choice(["c1", "c2"]), reqs=[rq])], "settle": True, "noIter": False})
                 if rng.random() < 0.7:
                     steps.append({"stim": [st(op="answer", n=n, kind="ok", count=3) for n in ("n1", "n2", "n3")], "settle": True, "noIter": False})
             steps.append({"stim": [st(op="answer", n=n, kind="ok", count=12) for n in ("n1", "n2", "n3")], "settle": True, "noIter": False})
